@@ -157,6 +157,9 @@ def cli_case(ctx, rng, k):
     with open(f"{d}/in.fq", "w") as f:
         f.write(fastx.format_fastq(recs))
     argv = ["--json", "rep.json", "--quality-base", str(base)]
+    minimal = rng.random() < 0.35
+    if minimal:
+        argv += ["--report", "minimal"]
     cf, cb, nc = 0, 0, None
     if mode == "q1":
         cb = rng.choice([5, 10, 20, 30]); argv += ["-q", str(cb)]
@@ -216,6 +219,18 @@ def cli_case(ctx, rng, k):
                 ctx.violation("cli-accounting", f"quality_trimmed_read{side+1} is null but {total[side]} bases were removed", case)
         elif got[side] != total[side]:
             ctx.violation("cli-accounting", f"quality_trimmed_read{side+1}={got[side]} but {total[side]} bases were removed; argv={argv}", case)
+    if minimal:
+        # the one-line report: qualtrim_bp is what was removed from R1, qualtrim2_bp what was removed from R2
+        from ..filtermon import parse_minimal_report
+        mr = parse_minimal_report(res.out)
+        ctx.count("minimal_reports_checked")
+        if mr is None:
+            ctx.violation("cli-accounting", f"no minimal report on standard output; argv={argv}", case)
+        else:
+            want = [total[0]] + ([total[1]] if len(outs) > 1 else [])      # the R2 column exists for paired data only
+            have = [int(mr.get("qualtrim_bp", -1))] + ([int(mr.get("qualtrim2_bp", -1))] if len(outs) > 1 else [])
+            if have != want:
+                ctx.violation("cli-accounting", f"minimal report qualtrim_bp/qualtrim2_bp = {have}, removed from R1/R2: {want}; argv={argv}", case, klass="minimal")
     ctx.case(("cli", str(argv), case["input"]) if nontrivial else None)
     import shutil
     shutil.rmtree(d, ignore_errors=True)
